@@ -474,13 +474,14 @@ Lemma uwc_fold mapping base l : forall st rec st' rec',
   (forall ws2, ~ In ws2 (map (fun x : N * nat * list nat => fst (fst x)) l) ->
      wc_get (s_v st') ws2 = wc_get (s_v st) ws2) /\
   (forall k0 c, aget Nat.eqb k0 rec = Some c -> aget Nat.eqb k0 rec' = Some c) /\
+  (forall k2, pm_get (s_pm st') k2 = pm_get (s_pm st) k2 \/ exists ws nids, In (ws, k2, nids) l) /\
   forall ws k nids, In (ws, k, nids) l ->
     exists c, wc_get (s_v st') ws = Some c /\
       if is_abandoned (pm_get (s_pm st) k) then aget Nat.eqb k rec' = Some c else c = hd 0 nids.
 Proof.
   induction l as [|[[ws k] nids] t IH]; intros st rec st' rec' HM ND HR Hbase HP H; cbn [fold_left] in H.
   - apply Ok_inj in H. injection H as <- <-.
-    split; [assumption|]. split; [lia|]. split; [auto|]. split; [auto|]. split; [auto|]. intros ? ? ? [].
+    split; [assumption|]. split; [lia|]. split; [auto|]. split; [auto|]. split; [auto|]. split; [auto|]. intros ? ? ? [].
   - destruct (uwc_step (Ok (st, rec)) (ws, k, nids)) as [[st1 rec1]| | |] eqn:E1.
     2,3,4: exfalso; eapply (uwc_step_stuck t); [|exact H]; discriminate.
     cbn [map fst] in ND. inversion ND as [|? ? Hn Hd]; subst.
@@ -490,10 +491,13 @@ Proof.
     { intros ws2 k2 n2 Hin. rewrite W1; [apply (HP ws2 k2 n2); now right|].
       intros ->. apply Hn. apply in_map_iff. exists (ws, k2, n2). auto. }
     destruct (IH st1 rec1 st' rec' (fun a b c Hi => HM a b c (or_intror Hi)) Hd HR1 ltac:(lia) HP1 H)
-      as [HR' [L' [O' [W' [R' F']]]]].
+      as [HR' [L' [O' [W' [R' [PM' F']]]]]].
     split; [exact HR'|]. split; [lia|]. split; [intros i Hi; rewrite O' by lia; now apply O1|].
-    split; [|split; [auto|]].
+    split; [|split; [auto|split]].
     + intros ws2 Hn2. cbn [map fst In] in Hn2. rewrite W' by tauto. apply W1. intros ->. apply Hn2. now left.
+    + intros k2. destruct (PM' k2) as [Q|[w2 [n2 Q]]]; [|right; exists w2, n2; now right].
+      rewrite Q. destruct (P1 k2) as [Q1|[Q1 _]]; [now left|right].
+      rewrite (HP ws k nids (or_introl eq_refl)) in Q1. injection Q1 as <-. exists ws, nids. now left.
     + intros ws2 k2 n2 [E|Hin].
       * injection E as <- <- <-. exists c1. split.
         -- rewrite W' by assumption. exact C1.
@@ -625,7 +629,7 @@ Proof.
   assert (HP : forall ws k nids, In (ws, k, nids) (flat_map F (v_wcs (s_v s0))) -> wc_get (s_v sA) ws = Some k).
   { intros ws k nids Hin. unfold wc_get. rewrite WA, W1. apply Hget. apply (HMl _ _ _ Hin). }
   destruct (uwc_fold mapping (length (s_g sA)) _ sA [] sf rec (fun a b c Hi => proj1 (HMl a b c Hi)) NDl
-              (fun k c Hc => ltac:(discriminate)) (le_n _) HP EF) as [HR [L [O [Wn [_ Fo]]]]].
+              (fun k c Hc => ltac:(discriminate)) (le_n _) HP EF) as [HR [L [O [Wn [_ [_ Fo]]]]]].
   intros ws k Hb. unfold wc_get. rewrite update_heads_wcs, update_heads_graph. fold (wc_get (s_v sf) ws).
   destruct (aget Nat.eqb k mapping) as [nids|] eqn:Ek.
   - split; [apply (resolve_mapping_spec _ _ _ EM k nids Ek)|].
